@@ -6,7 +6,9 @@ styles each; every printing is cooked by the real HTML / String class; monitors:
   * the structural normal form (vlib.normal) of template._v_blocks — must be equal for all printings;
   * result / exception type+message / Recorder call trace on three namespaces — must be equal;
   * &dtml-n; and &dtml.m1.m2-n; against the <dtml-var n ...> spelling the documentation names;
-  * grammar-violating mutants: accepted by one front end and rejected by another is a disagreement.
+  * grammar-violating mutants: accepted by one front end and rejected by another is a disagreement;
+  * literal text that merely looks like the start of an entity reference / of a tag, in front of real tags
+    (part D and a third of the random templates): must not change how the tags behind it are recognised.
 Oracle: pairwise equality only (no model of what a tag *does* is needed or used).
 """
 import itertools
@@ -27,9 +29,22 @@ RULE = ('seeded random abstract templates (<= 12 nodes, block nesting <= 4) over
         'x / name=x / name="x", expr="." / "." shorthand, attribute-name case, end-tag arguments, '
         '/tag vs endtag, else arguments, %(x)s vs %(var x)s, [ vs !), cooked by the real classes and '
         'rendered on 3 namespaces; plus every entity &dtml[.m1[.m2[.m3]]]-name; over the 18 valueless '
-        'var attributes against the <dtml-var> spelling; plus classified grammar-violating mutants. '
+        'var attributes against the <dtml-var> spelling (also directly behind look-alike text); plus '
+        'classified grammar-violating mutants.  Literal text: every third template draws it from the '
+        'alphabet extended by LOOK-ALIKES (text that merely looks like the start of an entity reference or '
+        "of a tag: '&dtml-' / '&dtml.' followed by a character no entity name contains, '&dtml ', '<dtml ', "
+        "'<dtml>', '<!-- #var x -->', '%( ', '%()' ...), and a dedicated part puts each look-alike fragment "
+        'directly in front of a tag of each kind (top level, inside a block, in front of an end / '
+        "continuation tag) with a ';' further on; counted: tags lying between a literal '&dtml-'/'&dtml.' "
+        "and the next ';'. "
         'A case is distinct by its AST (or entity/context); non-trivial when it contains at least one tag')
 ASSUMPTIONS = [
+    "literal text is the same text in all three syntaxes unless it forms a tag there; '&dtml-' / '&dtml.' "
+    "followed by anything but entity-name characters (letters, digits, '_', '-', '.') up to a ';' is no "
+    "entity reference (a reference is &dtml-name; / &dtml.m1.m2-name;), '<dtml' without '-' and '<!--' "
+    "without '#' are no tag starts, '%(' followed by a blank, ')' or '=' is no tag start (the tag name "
+    'comes directly behind the parenthesis); nothing is demanded about WHAT such text renders to beyond '
+    'being equal in every printing (literal conservation is C01)',
     'equivalence is demanded between spellings the docstrings show or name; attribute ORDER is part '
     'of the abstract template (never varied between printings)',
     'the bare "expr" shorthand is printed in HTML/SSI only (DESIGN C07 scoping decision); C-style '
@@ -47,6 +62,29 @@ STYLES = 4                      # printings per syntax: 1 canonical + 3 random
 ENTITY_NAMES = ('s1', 's2', 'n1', 'f1', 'undef', 'x-y', 'sequence-item', 'nil')
 ENTITY_CONTEXTS = (('', ''), ('<a href="', '">'), ('&', ';'), ('a &amp; ', ' &d'), ('<', '>'),
                    ('100% ', ' (x)'))
+# Literal text that merely LOOKS like the start of a tag / entity reference.  Every fragment is plain text in
+# all three syntaxes, alone and concatenated with any other fragment of the alphabets (vlib.tast) or placed
+# next to a tag:
+#   * behind every '&dtml-' / '&dtml.' the fragment itself goes on with a character no entity name can
+#     contain (blank, '=', '&', '<', '"', ',', ':', line end) before it ends, so no ';' further on can
+#     close a reference; no fragment contains ';' (the one exception is not a candidate: '&dtml;');
+#   * '<dtml' / '</dtml' are never followed by '-', '<!--' never by '#';
+#   * '%(' is directly followed by a blank, ')' or '=' (a tag has its name there).
+# printer.printable(.., lookalikes=True) re-checks every generated text node against these rules.
+LOOK_ENTITY = ('&dtml- ', '&dtml. ', '&dtml-=', '&dtml.=1 ', '&dtml-& ', '&dtml.&', 'Q&dtml-A session: ',
+               '?a=1&dtml-size=20&sort=', 'see &dtml.foo bar and ', '&dtml-x y', '&dtml.html_quote-s1 ',
+               '&dtml-s1,', '&dtml-s1\n', '&dtml-"', '&dtml-<b>', '&dtml.url_quote.upper-s2:',
+               '&dtml-s1 &dtml.lower-s2 ', '&dtml--> ', '&dtml.- ', '&dtml-s1&')
+LOOK_OTHER = ('&dtml ', '&dtml;', '&dtmlx ', '&dtml_s1 ', '<dtml ', '<dtml>', '</dtml>', '<dtml_var s1>',
+              '<dtmlvar s1>', '< dtml-var s1>', '<!-- #var s1 -->', '<!-- ', '<!--x', '<!- #', '%( ', '%()',
+              '%( s1)s', '%()s', '%(=')
+TEXT_LOOKALIKE = LOOK_ENTITY + LOOK_OTHER
+LOOK_SUFFIXES = (';', '; ', 'x=1;', ' &amp; ', '&#38;', ' ;\n', '-;', ' -->;', '>', ')s;', '-->', ')];')
+N_LOOK = {'quick': 960, 'thorough': 9600}
+ENTITY_LOOK_CONTEXTS = (('&dtml- ', ';'), ('u?a=1&dtml-size=20&s=', ';desc'), ('&dtml.foo bar ', ' ;'),
+                        ('<dtml ', '>;'), ('%( ', ')s;'))
+_CANDIDATE = re.compile(r'&dtml[-.]')
+TEXT_WITH_LOOKALIKES = tast.TEXT_MIXED + TEXT_LOOKALIKE
 EXPECTED_CLASSES = ('var', 'cond', 'Var', 'InClass', 'With', 'Let', 'Try', 'Raise', 'ReturnTag',
                     'Comment', 'Tree')
 _ADDR = re.compile(r'0x[0-9a-fA-F]{6,}')
@@ -267,14 +305,45 @@ def report(ctx, K, part, body, printings, problems, extra=None):
 
 
 # ---------------------------------------------------------------- part A: random ASTs
-def check_ast(ctx, K, body, rng, want_sample=False):
-    why = printer.printable(body)
+def lookalike_census(ctx, p):
+    """Count, in Printed `p` (an HTML-class printing), the look-alike situations the property is decided on:
+    a literal '&dtml-' / '&dtml.' that is no entity reference, followed by a real tag / entity that starts
+    before the next ';' of the source (or with no ';' at all behind it)."""
+    src = p.source
+    n = 0
+    for ti in p.texts:
+        if '&dtml' not in ti.text:
+            continue
+        for m in _CANDIDATE.finditer(ti.text):
+            c = ti.start + m.start()
+            semi = src.find(';', c)
+            form = 'dash' if m.group(0)[-1] == '-' else 'dot'
+            where = 'in comment' if ti.in_comment else 'depth %d' % min(ti.depth, 3)
+            ctx.table('look-alike candidates', '%s | %s' % (form, where))
+            if semi < 0:
+                ctx.count('lookalike:candidate with no ; behind it')
+                continue
+            tags = [t for t in p.tags if c < t.start < semi]
+            if not tags:
+                ctx.count('lookalike:candidate, no tag before the next ;')
+                continue
+            n += 1
+            ctx.count('lookalike:candidate, then tag(s), then ; (%s form)' % form)
+            for t in tags:
+                ctx.table('tags between a look-alike and the next ;', '%s:%s:%s' % (p.syntax, t.role, t.name))
+    return n
+
+
+def check_ast(ctx, K, body, rng, want_sample=False, part='ast'):
+    why = printer.printable(body, lookalikes=True)
     if why:
         ctx.count('discarded_unprintable')
         return
     ks = tast.kinds(body)
-    ctx.case(('ast', tast.to_obj(body)), nontrivial=any(k != 'text' for k in ks))
+    ctx.case((part, tast.to_obj(body)), nontrivial=any(k != 'text' for k in ks))
     ctx.count('programs')
+    if part != 'ast':
+        ctx.count('programs:' + part)
     for k in ks:
         ctx.table('ast node kinds', k)
     for n, _ in tast.walk(body):
@@ -292,6 +361,9 @@ def check_ast(ctx, K, body, rng, want_sample=False):
             for s in p.styles_used:
                 ctx.table('style variations', '%s:%s' % (sx, s))
             printings[-1] = printings[-1] + (p,)
+            if i == 0 and sx != 'epfs':
+                if lookalike_census(ctx, p):
+                    ctx.count('lookalike:programs with a tag between a look-alike and the next ; (%s)' % sx)
     problems, cooked, nfs = compare(ctx, K, [p[:3] for p in printings])
     byl = {p[0]: p[3] for p in printings}
     for label, sx, nf, key in nfs:
@@ -306,7 +378,7 @@ def check_ast(ctx, K, body, rng, want_sample=False):
         ctx.count('valid AST rejected by all front ends')
         ctx.table('rejected by all', cooked[0][4][1].split(', for tag')[0][:80])
     if problems:
-        report(ctx, K, 'ast', body, [p[:3] for p in printings], problems)
+        report(ctx, K, part, body, [p[:3] for p in printings], problems)
     elif want_sample:
         t = cooked[0][3]
         ctx.sample({'ast': tast.to_obj(body),
@@ -314,6 +386,48 @@ def check_ast(ctx, K, body, rng, want_sample=False):
                     'outcome_ns0': outcome(t, 0)[0] if t is not None else None,
                     'agreeing_printings': len(printings)})
     return problems
+
+
+# ---------------------------------------------------------------- part D: look-alike text in front of tags
+def body_lists(body):
+    yield body
+    for n in body:
+        for b in n.bodies():
+            yield from body_lists(b)
+
+
+def lookalike_template(rng, kind, fragment, suffix):
+    """A small template that contains a tag of `kind`, with the look-alike `fragment` put directly in
+    front of a tag (any tag, at any depth) or at the very end of a block body (= in front of the end or
+    continuation tag), and literal text with a ';' at the end of the template."""
+    body = tast.gen_template(rng, max_nodes=6, max_depth=2, focus=kind)
+    lists = list(body_lists(body))
+    spots = []
+    for li, lst in enumerate(lists):
+        for pos, n in enumerate(lst):
+            if n.kind != 'text':
+                spots.append((lst, pos))
+        if li:                          # a block body: its end is followed by a tag
+            spots.append((lst, len(lst)))
+    lst, pos = rng.choice(spots)
+    lst.insert(pos, tast.Text(fragment))
+    body.append(tast.Text(suffix))
+    return tast.merge_text(body)
+
+
+def check_lookalikes(ctx, K, rng, n):
+    kinds_ = [k for k in tast.ALL_KINDS if k != 'text']
+    for i in range(n):
+        j = i * ctx.nshards + ctx.shard
+        kind = kinds_[j % len(kinds_)]
+        # mostly the entity look-alikes; the <dtml / <!-- / %( ones are the cheap siblings
+        pool = LOOK_ENTITY if j % 4 else LOOK_OTHER
+        fragment = pool[(j // len(kinds_)) % len(pool)]
+        suffix = LOOK_SUFFIXES[rng.randrange(len(LOOK_SUFFIXES))]
+        body = lookalike_template(rng, kind, fragment, suffix)
+        ctx.count('lookalike_cases')
+        ctx.table('look-alike fragment x focus kind', '%r | %s' % (fragment, kind))
+        check_ast(ctx, K, body, rng, part='lookalike')
 
 
 # ---------------------------------------------------------------- part B: entities
@@ -356,7 +470,7 @@ def check_entity(ctx, K, name, mods, context, rng):
 # ---------------------------------------------------------------- part C: rejected mutants
 def check_mutants(ctx, K, body, rng):
     for label, mutant in tast.semantic_mutations(rng, body):
-        if printer.printable(mutant):
+        if printer.printable(mutant, lookalikes=True):
             continue
         printings = []
         for sx in printer.SYNTAXES:
@@ -470,12 +584,15 @@ def run(ctx, spec):
     focus_cycle = list(tast.ALL_KINDS)
     for i in range(n):
         focus = focus_cycle[(i + ctx.shard) % len(focus_cycle)] if i % 3 == 0 else None
-        body = tast.gen_template(rng, max_nodes=12, max_depth=4, focus=focus)
+        # every third template draws its literal text from the alphabet extended by the look-alikes
+        text = TEXT_WITH_LOOKALIKES if i % 3 == 1 else tast.TEXT_MIXED
+        body = tast.gen_template(rng, max_nodes=12, max_depth=4, focus=focus, text=text)
         check_ast(ctx, K, body, rng, want_sample=(i in (1, 7) and ctx.shard < 3))
         if i % 8 == 5:
             check_mutants(ctx, K, body, rng)
-        if i % 8 == 2 and not printer.printable(body):
+        if i % 8 == 2 and not printer.printable(body, lookalikes=True):
             check_structural(ctx, K, body, rng)
+    check_lookalikes(ctx, K, rng, N_LOOK[ctx.tier] // ctx.nshards)
     # entities: the whole modifier space, sharded by index
     seqs = entity_cases(ctx.tier)
     for j, mods in enumerate(seqs):
@@ -488,6 +605,11 @@ def run(ctx, spec):
             for name in ENTITY_NAMES:
                 for context in ENTITY_CONTEXTS[:3]:
                     check_entity(ctx, K, name, mods, context, rng)
+            # the entity right behind text that merely looks like the start of one (or of a tag)
+            for k, name in enumerate(ENTITY_NAMES):
+                context = ENTITY_LOOK_CONTEXTS[(j + k) % len(ENTITY_LOOK_CONTEXTS)]
+                ctx.count('entity_cases:behind a look-alike')
+                check_entity(ctx, K, name, mods, context, rng)
     reach.stop()
     reach.report(ctx)
 
@@ -496,11 +618,34 @@ def finish(agg):
     c = agg['counters']
     t = agg['tables']
     inc = []
+    # reach counters of engine internals are diagnosis: the verdict rests on comparisons of compiled
+    # programs and of outputs, so a renamed internal only matters when those did not evaluate either
+    diagnosis = []
     for r in ('reach:String.parse', 'reach:String.parse_block', 'reach:String.parseTag',
               'reach:HTML.parseTag', 'reach:dtml_re_class.search', 'reach:String.varExtra',
               'reach:HTML.varExtra'):
         if not c.get(r):
-            inc.append('anchor never entered: ' + r)
+            diagnosis.append('anchor never entered: ' + r)
+    output_level = all(c.get(k) for k in ('programs', 'entity_cases', 'renders', 'disagreements_checked'))
+    if not output_level:
+        inc.extend(diagnosis)
+    # ---- look-alike text (decided by the same output comparisons; these say the class was produced)
+    if not c.get('lookalike_cases') or not c.get('programs:lookalike'):
+        inc.append('no template with look-alike text in front of a tag was compared')
+    for form in ('dash', 'dot'):
+        if not c.get('lookalike:candidate, then tag(s), then ; (%s form)' % form):
+            inc.append("no compared template had a tag between a literal '&dtml%s' and the next ';'"
+                       % ('-' if form == 'dash' else '.'))
+    between = t.get('tags between a look-alike and the next ;', {})
+    for sx in ('html', 'ssi'):
+        for role in ('single', 'open', 'cont', 'close') + (('entity',) if sx == 'html' else ()):
+            if not any(k.startswith('%s:%s:' % (sx, role)) for k in between):
+                inc.append('no %s tag of role %r between a look-alike and the next ; in syntax %s'
+                           % (sx, role, sx))
+    if not c.get('lookalike:candidate, no tag before the next ;'):
+        inc.append('no look-alike without a tag before the next ; was compared')
+    if not c.get('entity_cases:behind a look-alike'):
+        inc.append('no entity equivalence behind look-alike text was evaluated')
     if not c.get('programs'):
         inc.append('no abstract template was compared')
     if not c.get('entity_cases'):
@@ -526,9 +671,14 @@ def finish(agg):
     return {'inconclusive': inc,
             'coverage': {'programs': c.get('programs', 0) + c.get('entity_cases', 0)
                          + c.get('mutant_programs', 0),
-                         'programs_ast': c.get('programs', 0),
+                         'programs_ast': c.get('programs', 0) - c.get('programs:lookalike', 0),
                          'programs_entity': c.get('entity_cases', 0),
                          'programs_mutant': c.get('mutant_programs', 0),
+                         'programs_lookalike': c.get('programs:lookalike', 0),
+                         'lookalike_then_tag_then_semicolon':
+                             c.get('lookalike:candidate, then tag(s), then ; (dash form)', 0)
+                             + c.get('lookalike:candidate, then tag(s), then ; (dot form)', 0),
+                         'diagnosis': diagnosis,
                          'disagreements_checked': c.get('disagreements_checked', 0),
                          'printings_per_program': STYLES * len(printer.SYNTAXES),
                          'namespaces_per_program': tast.NAMESPACE_VARIANTS,
